@@ -118,3 +118,11 @@ T("bs-select-reorder-consistent", ["C08"], BS, "        for row in self.sql(\"se
 T("bs-positional-summary", ["C08"], BS, "                                height=height,\n                                previous_block_hash=zeroify_nulls(previous_block_hash),\n                                merkle_root_hash=merkle_root_hash,\n                                timestamp=timestamp,\n                                target=target,\n                                nonce=nonce\n",
   "                                height, zeroify_nulls(previous_block_hash), merkle_root_hash, timestamp, target, nonce\n")
 T("bs-alias-writer", ["C08"], BS, "                block.header.summary.height,\n", "                block.height,\n")
+
+T("c18-add-checkpoint", ["C18"], CHEAT, "MAX_KNOWN_HASH_HEIGHT = max(KNOWN_HASHES.keys())", "KNOWN_HASHES[163500] = '0000aa' + 'b' * 58\nMAX_KNOWN_HASH_HEIGHT = max(KNOWN_HASHES.keys())")
+T("c18-guard-flat-and", ["C18", "C01"], CONS,
+  "        if block.height in KNOWN_HASHES:\n            if block.hash() != computer(KNOWN_HASHES[block.height]):\n                raise ValidationError(\"No forks allowed before block %s\" % MAX_KNOWN_HASH_HEIGHT)\n",
+  "        if block.height in KNOWN_HASHES and block.hash() != computer(KNOWN_HASHES[block.height]):\n            raise ValidationError(\"No forks allowed before block %s\" % MAX_KNOWN_HASH_HEIGHT)\n")
+T("c18-scrypt-literal", ["C18"], HASH, "N=1 << 15", "N=32768")
+T("c18-vlq-rename", ["C18", "C07"], SER, "    mod = 0\n    for j in reversed(range(needed_bytes)):\n        div = pow(128, j)\n        f.write(struct.pack(b\"B\", (i % mod if mod else i) // div + (128 if j > 0 else 0)))\n        mod = div",
+  "    modulus = 0\n    for k in reversed(range(needed_bytes)):\n        divisor = 128 ** k\n        f.write(struct.pack(b\"B\", (128 if k > 0 else 0) + (i % modulus if modulus else i) // divisor))\n        modulus = divisor")
